@@ -355,12 +355,48 @@ def run(ctx, report):
         for k in range(lin.emissions):
             R4.ok('%s:site%d' % (inst, k), nontrivial=False)
 
+    # ---------------------------------------------------------------- D5 a segment override of a string instruction survives the trip
+    R5 = report.rule('C03.D5', 'string instructions: a segment override is printed and assembled back', floor=12)
+    from .. import stringops as SO
+    strm = arch.method('x86_mn', '__str__')
+    for fam, n_ops in SO.FAMILIES:
+        if fam in ('stos', 'scas'):
+            continue            # only [edi]: no override possible
+        for sfx in ('b', 'd'):
+            mn = fam + sfx
+            for segname in ('fs', 'cs', None):
+                pre = [SO.SEG_PREFIX[segname]] if segname else []
+                ops = SO.decoded_operands(X, mn, pre)
+                kept = SO.rendered_operand_count(X, mn, ops)
+                back_args, back_prefix = SO.normalized(X, mn, ops)
+                inst = '%s %s' % (('%s:' % segname) if segname else 'plain', mn)
+                if segname is None:
+                    if back_prefix:
+                        R5.violation(inst, 'string-trip:%s:spurious-prefix' % fam, '%s is assembled back with the prefix %s' % (mn, back_prefix), where(arch, strm))
+                    else:
+                        R5.ok(inst, sample='%s: %d operands printed, no prefix on the way back' % (mn, kept))
+                    continue
+                problems = []
+                if kept == 0:
+                    problems.append('__str__ prints it as the plain %s (operands elided, prefix not shown)' % mn)
+                if back_prefix != pre:
+                    problems.append('normalize_args drops the explicit operands and the assembler emits prefix %s instead of %s' % (back_prefix, pre))
+                if back_args:
+                    problems.append('normalize_args keeps %d operands' % len(back_args))
+                if problems:
+                    R5.violation(inst, 'string-trip:%s:%s' % (fam, ';'.join(problems)[:90]), '%s: %s' % (inst, '; '.join(problems)), where(arch, strm),
+                                 witness="str(dis(64 a4)) == 'movsb'; asm('movsb BYTE PTR es:[edi], BYTE PTR fs:[esi]') == [a4]")
+                else:
+                    R5.ok(inst, sample='%s: operands printed (%d), re-assembled with prefix %s' % (inst, kept, back_prefix))
+
 
 MUTANTS = [
+    ('string-elide-always', 'miasmx/arch/ia32_arch.py', "        if len(args) == 2 and self.m.name in rep_mov_cmp and x86_afs.segm in args[0] \\\n                and args[1].get(x86_afs.segm) == default_ds:\n            args[0:2] = []", "        if len(args) == 2 and self.m.name in rep_mov_cmp and x86_afs.segm in args[0]:\n            args[0:2] = []", 'C03.D5'),
+    ('string-override-dropped', 'miasmx/arch/ia32_arch.py', "            string_keep_override(args, prefix)\n            args[0:2] = []\n        # \"lea\"", "            args[0:2] = []\n        # \"lea\"", 'C03.D5'),
     ('segm-single-skip', 'miasmx/arch/ia32_arch.py', "            if x86_afs.segm in a:\n                #print a\n", "            if x86_afs.segm in a:\n                if len(args_eval) == 1 and not name in ['push', 'pop']:\n                    continue\n", 'C03.D3'),
     ('ptrformula-size-first', 'miasmx/core/parse_ad.py', "    t[0].update(t[1])\n\ndef p_symbolregister", "    t[1].update(t[0])\n    t[0] = t[1]\n\ndef p_symbolregister", 'C03.D3'),
     ('ptrformula-ds-always-dropped', 'miasmx/core/parse_ad.py', "    if t[2][x86_afs.segm] != 3 or 4 in t[3] or 5 in t[3]:", "    if t[2][x86_afs.segm] != 3:", 'C03.D3'),
-    ('push-word-any', 'miasmx/arch/ia32_arch.py', "        if name == 'push' and args[0][x86_afs.size] == x86_afs.u16 \\\n                and not [k for k in args[0] if type(k) == int]:", "        if name == 'push' and args[0][x86_afs.size] == x86_afs.u16:", 'C03.D3'),
+    ('push-word-any', 'miasmx/arch/ia32_arch.py', "                and args[0][x86_afs.size] == x86_afs.u16 \\\n                and not [k for k in args[0] if type(k) == int]:", "                and args[0][x86_afs.size] == x86_afs.u16:", 'C03.D3'),
     ('movsd-store-string', 'miasmx/arch/ia32_arch.py', "                and args[0][x86_afs.size] != x86_afs.xmm \\\n                and args[1][x86_afs.size] != x86_afs.xmm:", "                and args[0][x86_afs.size] != x86_afs.xmm:", 'C03.D3'),
     ('disp-twice', 'miasmx/arch/ia32_arch.py', "                        address[0] = add_imm_to_string(\"\", immediate, imm_size)\n                        immediate = 0\n", "                        address[0] = add_imm_to_string(\"\", immediate, imm_size)\n", 'C03.D4'),
     ('symbol-twice', 'miasmx/arch/ia32_arch.py', "                address += ' + ' + symbol\n                symbol = ''\n", "                address += ' + ' + symbol\n", 'C03.D4'),
